@@ -187,6 +187,19 @@ def gen_cuts(chk, B, E):
     return jobs
 
 
+def gen_finish(chk, B, E):
+    """Through the real Subprocess.finish(): every cut point of streams with 0-2 sections, the part
+    after the cut still unread in the pipe when the child is reaped.  -> (stream, cut, capmax)"""
+    streams = [b'hello\n', b'ab' + B + b'xyz' + E + b'cd', b'a' + B + b'x' + E + b'm' + B + b'yy' + E + b'z\n',
+               b'tail' + B[:7], b'0123456789' * 4 + B + b'Q' * 12 + E, B + b'never closed', B + E, E + b'x' + B]
+    jobs = []
+    for s in streams:
+        for cap in ((10, 3, 1000) if chk.tier == 'quick' else (1, 3, 10, 12, 1000)):
+            for c in range(0, len(s) + 1):
+                jobs.append((s, c, cap))
+    return jobs
+
+
 # ------------------------------------------------------------------ running
 
 def frags_lit(frags):
@@ -214,6 +227,7 @@ def _run(chk, wd, proved):
     sjobs = gen_sum(chk)
     bjobs = gen_boundio(chk)
     cjobs = gen_cuts(chk, B, E)
+    fjobs = gen_finish(chk, B, E)
     corpus = _load_corpus()
     ejobs = corpus + ejobs
     ctx = multiprocessing.get_context('fork')
@@ -222,6 +236,9 @@ def _run(chk, wd, proved):
         sres = pool.map(H.sum_job, sjobs, chunksize=64)
         bres = pool.map(H.boundio_job, bjobs, chunksize=256)
         cres = pool.map(H.cuts_job, cjobs, chunksize=1)
+    import c07_seam as S
+    with ctx.Pool(vlib.NCPU, initializer=S.worker_init, initargs=(wd,)) as pool:
+        fres = pool.map(S.finish_job, fjobs, chunksize=16)
 
     distinct = set()
     nruns = 0
@@ -243,6 +260,33 @@ def _run(chk, wd, proved):
         chk.violation({'kind': 'model of BoundIO.write and implementation disagree', 'maxbytes': bjobs[i][0],
                        'writes': [list(c) for c in bjobs[i][1]], 'buffer_after_each_write': [list(b) for b in bres[i][0]]},
                       nofail=not bres[i][1])
+    # ---- data arriving only at reap time, through the real Subprocess.finish()
+    fcases, fmeta = [], []
+    for (s, c, cap), (log, comm, fail) in zip(fjobs, fres):
+        nruns += 1
+        chk.dist('finish:cap=%d' % cap)
+        frags = ([s[:c]] if c > 0 else []) + [s[c:]]
+        desc = {'stream': list(s), 'read_before_exit': c, 'still_in_pipe_at_reap': len(s) - c, 'capture_maxbytes': cap,
+                'how': 'real Subprocess.spawn/finish on the fake kernel seam: write stream[:cut], read, write stream[cut:], '
+                       'exit, reap'}
+        if fail:
+            chk.violation(dict(desc, kind='the implementation failed in Subprocess.finish()', why=fail))
+            continue
+        why = H.judge(s, {'log': log, 'comm': comm}, B, E, cap)
+        if why:
+            if len([1 for _p, nf in chk.violations if not nf]) < 8:
+                chk.violation(dict(desc, kind='the implementation violates C08 when the data is drained at reap time '
+                                              '(judged by the reference splitter)', why=why, log=list(log),
+                                   events=[list(x) for x in comm]))
+            continue
+        distinct.add(('f', len(log), tuple(len(x) for x in comm)))
+        fcases.append('(%s, %s, %s, %s)' % (zlit(cap), frags_lit(frags), vlib.bytes_lit(log), frags_lit(comm)))
+        fmeta.append(desc)
+    bad, errs = vlib.coq_compare(IMPORTS, 'Z * list bytes * bytes * list bytes', 'check_final', fcases, wd, tag='finish', shard=300)
+    for e in errs:
+        chk.violation({'kind': 'model evaluation failed', 'part': 'finish', 'error': e}, nofail=True)
+    for i in bad[:5]:
+        chk.violation(dict(fmeta[i], kind='model and implementation disagree on a run through Subprocess.finish()'), nofail=True)
     # ---- byte-level cuts around capture_maxbytes
     ccases = []
     for (s, cap, stride), (total, n, badj) in zip(cjobs, cres):
@@ -359,6 +403,8 @@ def _run(chk, wd, proved):
                    'canonical streams, capture_maxbytes in %r and -1; the real BoundIO alone on every sequence of <= 4 writes with '
                    'sizes {0,1,mb-1,mb,mb+1,2mb} for mb in 1..6 (+ larger bounds, random); sections of length cap-1, cap, cap+1, 2cap '
                    'for cap in {8,30,40,100} behind a flushing prefix with every 2-read split and 3-read splits at multiples of 7; '
+                   'every cut point of 8 streams with 0-2 sections where the part after the cut is still in the pipe at reap, through '
+                   'the real Subprocess.finish() on the fake kernel seam; '
                    'distinct_nontrivial = distinct (log length, events, event '
                    'lengths, mode) outcomes of exact runs in which a tag was recognised, plus distinct stream checksums'
                    % (5 if chk.tier == 'quick' else 6, CAPS))
